@@ -181,7 +181,6 @@ fn family(k: Kind) -> &'static str {
 struct Rd<'a> {
   e: &'a Ev,
   wid: u64,
-  n: u64,
 }
 
 pub fn check_register(o: &Outcome, wt: &HashMap<u64, WInfo>, a: &mut Analysis) {
@@ -237,7 +236,7 @@ pub fn check_register(o: &Outcome, wt: &HashMap<u64, WInfo>, a: &mut Analysis) {
         }
         _ => {}
       }
-      reads.entry(ob.key).or_default().push(Rd { e, wid: ob.wid, n: ob.n });
+      reads.entry(ob.key).or_default().push(Rd { e, wid: ob.wid });
     }
   }
   a.count("c11/reads_returning_a_value_checked", n_reads);
